@@ -368,8 +368,44 @@ fn pred_of(p: &J) -> (u64, u64) {
     (p["m"].as_u64().unwrap(), p["r"].as_u64().unwrap())
 }
 
+thread_local! {
+    /// calls of the predicate left before it panics (steps with "panic_at": C05, a panicking predicate)
+    static PRED_CALLS_LEFT: std::cell::Cell<Option<u64>> = const { std::cell::Cell::new(None) };
+}
+
+fn pred_tick() {
+    PRED_CALLS_LEFT.with(|c| {
+        if let Some(n) = c.get() {
+            if n == 0 {
+                c.set(None);
+                panic!("the predicate panics (injected by the harness)");
+            }
+            c.set(Some(n - 1));
+        }
+    });
+}
+
 impl<K: Key + 'static, V: Reserve<K>> WHandle for WT<K, V> {
     fn op(&mut self, cx: &Ctx, op: &J) -> J {
+        if let Some(n) = op.get("p").and_then(|p| p.get("panic_at")).and_then(|x| x.as_u64()) {
+            PRED_CALLS_LEFT.with(|c| c.set(Some(n)));
+            let r = catch_unwind(AssertUnwindSafe(|| self.op_inner(cx, op)));
+            let fired = PRED_CALLS_LEFT.with(|c| c.replace(None)).is_none();
+            return match r {
+                Ok(j) => j,
+                Err(p) if fired => {
+                    let _ = p;
+                    json!({"predpanic": true})
+                }
+                Err(p) => std::panic::resume_unwind(p),
+            };
+        }
+        self.op_inner(cx, op)
+    }
+}
+
+impl<K: Key + 'static, V: Reserve<K>> WT<K, V> {
+    fn op_inner(&mut self, cx: &Ctx, op: &J) -> J {
         let kt = self.kt.as_str();
         let vt = self.vt.as_str();
         let kbuf = op.get("k").and_then(|k| k.as_u64()).map(|k| cx.key_bytes(kt, k as u32)).unwrap_or_default();
@@ -536,6 +572,7 @@ impl<K: Key + 'static, V: Reserve<K>> WHandle for WT<K, V> {
             "retain" => {
                 let (m, r) = pred_of(&op["p"]);
                 let keep = |k: K::SelfType<'_>, _: V::SelfType<'_>| {
+                    pred_tick();
                     let i = cx.key_index(kt, K::as_bytes(&k).as_ref());
                     i >= 0 && (i as u64) % m == r
                 };
@@ -555,6 +592,7 @@ impl<K: Key + 'static, V: Reserve<K>> WHandle for WT<K, V> {
                 let rev = op["rev"].as_bool().unwrap();
                 let alt = op["alt"].as_bool().unwrap();
                 let pred = |k: K::SelfType<'_>, _: V::SelfType<'_>| {
+                    pred_tick();
                     let i = cx.key_index(kt, K::as_bytes(&k).as_ref());
                     i >= 0 && (i as u64) % m == r
                 };
@@ -1191,6 +1229,10 @@ impl Exec {
                 let r = h.op(&self.cx, op);
                 if let Some(multi) = r.get("multi") {
                     return multi.as_array().unwrap().clone();
+                }
+                if r.get("predpanic").is_some() {
+                    // the predicate panicked inside retain / extract_if: the transaction is poisoned
+                    return vec![json!({"e": "predpanic", "n": n, "op": e})];
                 }
                 let mut evs = Self::with_r(op, r);
                 if matches!(e, "mins" | "mrem" | "mremall") {
